@@ -638,7 +638,16 @@ def pam_streams_case(ctx, rng, idx):
                        'n_models': n_models, 'seed': repr(seed_arg)}, feats)
 
 
+def heterogeneous_joint_case(ctx, rng, idx):
+    """the draws of one call are independent of each other (shared with
+    C06): heterogeneous samples coincide with probability 1 / n_ids"""
+    from checks import c06
+    c06.heterogeneous_joint_case(ctx, rng, idx)
+
+
 FAMILIES = [
+    Family('heterogeneous_joint', heterogeneous_joint_case, quick=12,
+           thorough=60),
     Family('pam_streams', pam_streams_case, quick=24, thorough=240),
     Family('reproducibility', reproducibility_case, quick=8 * 36,
            thorough=8 * 400),
